@@ -1,7 +1,29 @@
 use crate::{
+    archetypes::Archetypes,
     registry,
     world::World,
 };
+use core::mem;
+
+/// Empties the archetypes when dropped.
+///
+/// `World::clone_from()` holds one of these while the archetypes are being overwritten and forgets
+/// it afterwards, so it only ever runs while a panic raised by a component's `Clone` or `Drop`
+/// implementation unwinds.
+struct ClearOnUnwind<'a, Registry>(&'a mut Archetypes<Registry>)
+where
+    Registry: registry::Registry;
+
+impl<Registry> Drop for ClearOnUnwind<'_, Registry>
+where
+    Registry: registry::Registry,
+{
+    fn drop(&mut self) {
+        for archetype in self.0.iter_mut() {
+            archetype.clear_detached();
+        }
+    }
+}
 
 impl<Registry, Resources> Clone for World<Registry, Resources>
 where
@@ -38,9 +60,18 @@ where
     /// This method reuses the existing allocations for the clone. In some cases, this can be more
     /// efficient than calling `clone()` directly.
     fn clone_from(&mut self, source: &Self) {
+        // The old identifiers stop being valid as soon as the archetypes start being overwritten.
+        // They are forgotten first, so that none of them can resolve into a half-replaced archetype
+        // if cloning or dropping a component panics below. The rows stored by then belong to no
+        // identifier of this world either, so in that case the world is left empty.
+        self.entity_allocator.clear();
+        self.len = 0;
+        let archetypes = ClearOnUnwind(&mut self.archetypes);
+
         // SAFETY: `identifier_map` will be outlived by both the current and the source `World`,
         // and therefore will be outlived by the archetypes it references as well.
-        let identifier_map = unsafe { self.archetypes.clone_from(&source.archetypes) };
+        let identifier_map = unsafe { archetypes.0.clone_from(&source.archetypes) };
+        mem::forget(archetypes);
         // SAFETY: `identifier_map` is guaranteed to contain an entry for every archetype in the
         // world, meaning there will be an entry for every archetype identifier referenced in
         // `self.entity_allocator`.
